@@ -40,6 +40,13 @@ type Schema struct {
 	Imports  []string // e.g. google/protobuf/timestamp.proto
 	Only     []string // runtimes the schema applies to (empty = all)
 	FileExt  []F      // extensions declared at file level: Card carries "ext:<Extendee>"
+	Dep      *Schema  // a second .proto file, imported by this one, with its own Go package (dep/v1;depv1);
+	// its types are referenced as "dep:<Message>" / "depenum:<Enum>"; only the importing file is generated
+}
+
+// DepFileName is the name of the imported file of a schema with a Dep.
+func DepFileName(fileName string) string {
+	return "dep/v1/" + strings.TrimSuffix(fileName, ".proto") + "_dep.proto"
 }
 
 // AppliesTo reports whether the schema is meaningful for the runtime.
@@ -87,6 +94,9 @@ func (s *Schema) FileDescriptor(fileName, pkg, goPkg string) *descriptorpb.FileD
 		Dependency: append([]string{}, s.Imports...),
 		Options:    &descriptorpb.FileOptions{GoPackage: proto.String(goPkg)},
 	}
+	if s.Dep != nil {
+		fd.Dependency = append(fd.Dependency, DepFileName(fileName))
+	}
 	if s.Syntax == "proto3" {
 		fd.Syntax = proto.String("proto3")
 	} else {
@@ -117,6 +127,10 @@ func (s *Schema) typeRef(kind, pkg string) (descriptorpb.FieldDescriptorProto_Ty
 		return descriptorpb.FieldDescriptorProto_TYPE_MESSAGE, proto.String("." + pkg + "." + strings.TrimPrefix(kind, "msg:"))
 	case strings.HasPrefix(kind, "enum:"):
 		return descriptorpb.FieldDescriptorProto_TYPE_ENUM, proto.String("." + pkg + "." + strings.TrimPrefix(kind, "enum:"))
+	case strings.HasPrefix(kind, "dep:"):
+		return descriptorpb.FieldDescriptorProto_TYPE_MESSAGE, proto.String("." + pkg + ".dep." + strings.TrimPrefix(kind, "dep:"))
+	case strings.HasPrefix(kind, "depenum:"):
+		return descriptorpb.FieldDescriptorProto_TYPE_ENUM, proto.String("." + pkg + ".dep." + strings.TrimPrefix(kind, "depenum:"))
 	case strings.HasPrefix(kind, "wkt:"):
 		return descriptorpb.FieldDescriptorProto_TYPE_MESSAGE, proto.String("." + strings.TrimPrefix(kind, "wkt:"))
 	}
@@ -207,7 +221,7 @@ func (s *Schema) message(m *M, scope, pkg string) *descriptorpb.DescriptorProto 
 }
 
 func isPackable(kind string) bool {
-	return !(kind == "string" || kind == "bytes" || strings.HasPrefix(kind, "msg:") || strings.HasPrefix(kind, "wkt:"))
+	return !(kind == "string" || kind == "bytes" || strings.HasPrefix(kind, "msg:") || strings.HasPrefix(kind, "wkt:") || strings.HasPrefix(kind, "dep:"))
 }
 
 func lowerCamel(s string) string {
